@@ -18,6 +18,8 @@ import (
 	"verifsim/simrt"
 	"verifsim/world"
 	"verifsim/world/gk"
+
+	"github.com/jcmturner/gokrb5/v8/client"
 )
 
 type eng struct{}
@@ -28,6 +30,12 @@ func (eng) Run(tape json.RawMessage, res *core.Result)  { run(tape, res) }
 func TestSim(t *testing.T)                              { engine.Main(t, eng{}) }
 
 var krbErrRe = regexp.MustCompile(`KRB Error: \((\d+)\)`)
+var kadminRe = regexp.MustCompile(`error response from kadmin: code: (\d+)`)
+
+const (
+	oldPassword = "old-Passw0rd-c12"
+	newPassword = "new-Passw0rd-c12!"
+)
 
 type epClass struct {
 	good, dead bool
@@ -68,6 +76,7 @@ type detail struct {
 	Dials    map[string]int    `json:"dials"`
 	SimS     float64           `json:"sim_seconds"`
 	Order    []string          `json:"dial_order"`
+	Server   []string          `json:"kpasswd_server_log,omitempty"`
 }
 
 func run(tapeJSON json.RawMessage, res *core.Result) {
@@ -76,37 +85,63 @@ func run(tapeJSON json.RawMessage, res *core.Result) {
 		res.Verdict, res.Harness = "invalid", err.Error()
 		return
 	}
-	if tp.NKDC < 1 || tp.NKDC > 3 || (tp.Limit != "tcp-only" && tp.Limit != "tcp-first" && tp.Limit != "udp-first") {
+	if tp.NKDC < 1 || tp.NKDC > 3 || (tp.Limit != "tcp-only" && tp.Limit != "tcp-first" && tp.Limit != "udp-first") ||
+		(tp.Phase != "as" && tp.Phase != "tgs" && tp.Phase != "kpasswd") || tp.Refuse < 0 || tp.Refuse > 7 || (tp.Refuse != 0 && tp.Phase != "kpasswd") {
 		res.Verdict, res.Harness = "invalid", "shape"
 		return
 	}
+	kpPhase := tp.Phase == "kpasswd"
 	simsync.Passive = true
 	gk.Seed(tp.RunSeed)
 	kdc := refkdc.New("SIM.TEST", tp.RunSeed, refkdc.Policy{})
-	kdc.AddKeyUser("alice", 3)
+	if kpPhase {
+		kdc.AddPasswordUser("alice", oldPassword, "", 0)
+	} else {
+		kdc.AddKeyUser("alice", 3)
+	}
 	kdc.AddService("HTTP/host.sim.test")
 	net := world.NewNet()
-	var addrs []string
+	var addrs, kpAddrs []string
 	for i := 0; i < tp.NKDC; i++ {
 		addrs = append(addrs, fmt.Sprintf("10.0.0.%d:88", i+1))
+		kpAddrs = append(kpAddrs, fmt.Sprintf("10.0.1.%d:464", i+1))
 	}
+	// the change-password servers of the realm (reference implementation of RFC 3244), one per KDC
+	kp := refkdc.NewKPasswd(kdc)
+	kp.Result = uint16(tp.Refuse)
+	if tp.Refuse != 0 {
+		kp.ResultText = "refused by policy"
+	}
+	for _, a := range kpAddrs {
+		net.Resp[a] = func(proto, addr string, req []byte) []byte { return kp.Handle(req) }
+	}
+	net.ErrReply = func(addr string, code int32, req []byte) []byte { return kp.ErrorReply(code, 2, "") }
 	gk.Wire(net, kdc, addrs, nil)
 	simnet.Install(net)
 	limit := map[string]int{"tcp-only": 1, "tcp-first": 20, "udp-first": 32000}[tp.Limit]
 	yes := true
 	cm := gk.ConfModel{DefaultRealm: "SIM.TEST", UDPLimit: limit, NoAddresses: &yes, Realms: map[string][]string{"SIM.TEST": addrs},
-		DomainRealm: map[string]string{".sim.test": "SIM.TEST"}, TktEtypes: []string{gk.EtypeNames[18]}, TGSEtypes: []string{gk.EtypeNames[18]}}
+		KPasswd: map[string][]string{"SIM.TEST": kpAddrs}, DomainRealm: map[string]string{".sim.test": "SIM.TEST"}, TktEtypes: []string{gk.EtypeNames[18]}, TGSEtypes: []string{gk.EtypeNames[18]}}
 	cfg, _, err := cm.Parse()
 	if err != nil {
 		res.Verdict, res.Harness = "harness-error", "krb5.conf: "+err.Error()
 		return
 	}
-	kt, _, err := gk.UserKeytab(kdc, "alice")
-	if err != nil {
-		res.Verdict, res.Harness = "harness-error", "keytab: "+err.Error()
-		return
+	var cl *client.Client
+	if kpPhase {
+		cl = client.NewWithPassword("alice", "SIM.TEST", oldPassword, cfg)
+	} else {
+		kt, _, err := gk.UserKeytab(kdc, "alice")
+		if err != nil {
+			res.Verdict, res.Harness = "harness-error", "keytab: "+err.Error()
+			return
+		}
+		cl = gk.NewKeytabClient("alice", "SIM.TEST", kt, cfg)
 	}
-	cl := gk.NewKeytabClient("alice", "SIM.TEST", kt, cfg)
+	target := addrs // the endpoints the behaviours of the tape apply to
+	if kpPhase {
+		target = kpAddrs
+	}
 	beh := map[string]world.Behaviour{}
 	behNames := map[string]string{}
 	for k, b := range tp.Beh {
@@ -115,12 +150,13 @@ func run(tapeJSON json.RawMessage, res *core.Result) {
 		if len(parts) != 2 || e != nil || i < 0 || i >= tp.NKDC || (parts[0] != "udp" && parts[0] != "tcp") {
 			continue
 		}
-		beh[parts[0]+"!"+addrs[i]] = b
+		beh[parts[0]+"!"+target[i]] = b
 		behNames[k] = fmt.Sprintf("%s(%d)", b.Kind, b.Arg)
 	}
 	var opErr error
 	var t0, t1 int64
 	var panicMsg string
+	changedWithErr := false
 	done := simrt.Spawn(1, "client", simrt.Sched{Mode: "min"}, func() {
 		if tp.Phase == "tgs" {
 			// log in over a healthy network first, then let the faults in
@@ -134,9 +170,19 @@ func run(tapeJSON json.RawMessage, res *core.Result) {
 		_ = mark
 		t0 = simrt.NowNs()
 		p, frame, msg := engine.Guard(func() {
-			if tp.Phase == "tgs" {
+			switch tp.Phase {
+			case "tgs":
 				_, _, opErr = cl.GetServiceTicket("HTTP/host.sim.test")
-			} else {
+			case "kpasswd":
+				var ok bool
+				ok, opErr = cl.ChangePasswd(newPassword)
+				if !ok && opErr == nil {
+					opErr = fmt.Errorf("ChangePasswd returned false without an error")
+				}
+				if ok && opErr != nil {
+					changedWithErr = true
+				}
+			default:
 				opErr = cl.Login()
 			}
 		})
@@ -213,11 +259,49 @@ func run(tapeJSON json.RawMessage, res *core.Result) {
 		open = true // a working endpoint exists only on a transport the configuration does not permit
 		allowed["success"] = true
 	}
+	okName := "success"
+	if kpPhase {
+		// The change-password exchange is not a KDC exchange: gokrb5 sends it over the one transport
+		// the size preference selects and has no second transport.  What the statement says about
+		// servers that refuse, time out or close early on that transport, about KRB-ERRORs and about
+		// bounded attempts is judged; what only the other transport could deliver is left open.
+		if tp.Refuse != 0 {
+			okName = fmt.Sprintf("refused:%d", tp.Refuse)
+		}
+		sel, other := "tcp", "udp"
+		if tp.Limit == "udp-first" {
+			sel, other = "udp", "tcp"
+		}
+		first, second = sel, other
+		good, errs, tb = count(sel, isGood), count(sel, isErr), count(sel, isTB)
+		allowed = map[string]bool{}
+		open = false
+		for i := 0; i < tp.NKDC; i++ {
+			if c := cls[fmt.Sprintf("%s!%d", sel, i)]; c.code > 0 {
+				allowed[fmt.Sprintf("err:%d", c.code)] = true
+			}
+		}
+		if good > 0 {
+			allowed[okName] = true
+		}
+		if tb > 0 {
+			allowed["err:52"] = true
+		}
+		if good == 0 && errs == 0 && tb == 0 {
+			allowed["fail"] = true
+		}
+		if good == 0 && count(other, isGood) > 0 {
+			open = true
+			allowed[okName] = true
+		}
+	}
 	// ---- observation
 	obs := "success"
 	if opErr != nil {
 		obs = "fail"
-		if m := krbErrRe.FindStringSubmatch(opErr.Error()); m != nil {
+		if m := kadminRe.FindStringSubmatch(opErr.Error()); m != nil && kpPhase {
+			obs = "refused:" + m[1]
+		} else if m := krbErrRe.FindStringSubmatch(opErr.Error()); m != nil {
 			obs = "err:" + m[1]
 		}
 	}
@@ -246,6 +330,11 @@ func run(tapeJSON json.RawMessage, res *core.Result) {
 		d.Err = opErr.Error()
 		if len(d.Err) > 400 {
 			d.Err = d.Err[:400]
+		}
+	}
+	if kpPhase {
+		for _, c := range kp.Changes() {
+			d.Server = append(d.Server, fmt.Sprintf("client=%s target=%s applied=%v code=%d %s", c.Client, c.Target, c.Applied, c.Code, c.Note))
 		}
 	}
 	// pattern class for the signature
@@ -305,8 +394,11 @@ func run(tapeJSON json.RawMessage, res *core.Result) {
 	if !allowed[obs] {
 		kind := "outcome-not-allowed"
 		switch {
-		case obs != "success" && len(al) == 1 && al[0] == "success":
+		case obs != okName && len(al) == 1 && al[0] == okName:
 			kind = "must-succeed-but-failed"
+			if okName != "success" {
+				kind = "refusal-of-the-server-not-surfaced"
+			}
 		case obs == "success":
 			kind = "must-fail-but-succeeded"
 		case strings.HasPrefix(obs, "err:"):
@@ -318,6 +410,25 @@ func run(tapeJSON json.RawMessage, res *core.Result) {
 			kind = "panic"
 		}
 		engine.Violate(res, kind+"|"+tp.Limit+"|"+pattern, d)
+	}
+	if kpPhase {
+		// "returns that answer": success is reported only for a change that a server applied
+		applied := false
+		for _, c := range kp.Changes() {
+			if c.Applied && c.Client == "alice" && c.NewPasswd == newPassword {
+				applied = true
+			}
+		}
+		if obs == "success" && !applied {
+			engine.Violate(res, "kpasswd-success-without-an-applied-change|"+tp.Limit, d)
+		}
+		if changedWithErr {
+			engine.Violate(res, "kpasswd-success-with-error|"+tp.Limit, d)
+		}
+		if tp.Refuse != 0 {
+			res.Probes["kpasswd-refused-by-policy"]++
+		}
+		res.Probes["kpasswd-exchange"]++
 	}
 	// bounded attempts: no endpoint is dialled without bound for one operation, and the call ends
 	// within a bounded simulated time (both bounds far above anything reasonable)
